@@ -73,6 +73,9 @@ impl NameMap {
             name_vec.push(NameSymbol::Struct(id));
         }
 
+        // Names that are written out unchanged into a scope and so can not be given to any other symbol in that scope
+        let mut fixed_names: HashMap<Option<NamespaceId>, HashSet<String>> = HashMap::new();
+
         for i in 0..module.enum_registry.get_enum_count() {
             let id = EnumId(i);
             let def = &module.enum_registry.get_enum_definition(id);
@@ -84,6 +87,25 @@ impl NameMap {
                 .entry(def.name.node.clone())
                 .or_default();
             name_vec.push(NameSymbol::Enum(id));
+
+            // Enum values are visible in the scope that contains the enum and keep their names
+            for value_id in module.enum_registry.get_values(id) {
+                let value_name = &module.enum_registry.get_enum_value(*value_id).name.node;
+                fixed_names
+                    .entry(def.namespace)
+                    .or_default()
+                    .insert(value_name.clone());
+            }
+        }
+
+        // Constant buffer members are visible in the scope that contains the buffer and keep their names
+        for def in &module.cbuffer_registry {
+            for member in &def.members {
+                fixed_names
+                    .entry(def.namespace)
+                    .or_default()
+                    .insert(member.name.node.clone());
+            }
         }
 
         for i in 0..module.global_registry.len() {
@@ -156,6 +178,12 @@ impl NameMap {
             let mut used_names = reserved_name_set.clone();
 
             let namespace = *scope.0;
+
+            if let Some(names) = fixed_names.get(&namespace) {
+                for name in names {
+                    used_names.insert(name.clone());
+                }
+            }
 
             // Sort map first to ensure if a name generates a conflict with another generated name it will be consistent
             let mut name_to_symbol_vec = Vec::from_iter(scope.1.iter());
